@@ -10,7 +10,9 @@ import time
 from . import engine, gen, minimise, model, sim
 
 VERIF = '/verif'
-REPLAYS = VERIF + '/replays'
+# (scratch runs against another source tree - the sensitivity self-test - keep their output apart)
+REPLAYS = os.environ.get('VERIF_OUT', VERIF) + '/replays'
+EVIDENCE = os.environ.get('VERIF_OUT', VERIF) + '/evidence'
 KNOWN = VERIF + '/known_findings.jsonl'
 
 REAL_STUB = {
@@ -33,7 +35,7 @@ PROPS = {
         'assumptions': [
             'occurrence times of the arithmetic task family are computed by the runner with timegm arithmetic, not by echse',
             'the libev model reproduces libev 4.33 ordering (checked by the conformance scenarios at build time)',
-            'wall-clock steps are not simulated in this campaign',
+            'wall-clock steps: backward steps at moments when no expiry is outstanding are part of the campaign; forward steps and steps noticed while the daemon is held up past an occurrence lose that occurrence (known finding clock-step, replayed from witnesses)',
         ],
     },
     'C12': {
@@ -144,7 +146,8 @@ PROPS = {
 
 
 def build():
-    p = subprocess.run(['make', '-s', '-C', VERIF, '-j16', 'build'], stdout=subprocess.PIPE,
+    p = subprocess.run(['make', '-s', '-C', VERIF, '-j16', 'build', 'REPO=' + os.environ.get('VERIF_REPO', '/repo'),
+                        'B=' + os.environ.get('VERIF_BUILD', VERIF + '/build')], stdout=subprocess.PIPE,
                        stderr=subprocess.STDOUT)
     if p.returncode != 0:
         sys.stdout.write(p.stdout.decode('latin1')[-4000:])
@@ -445,7 +448,7 @@ def run_check(prop, tier, budget=None, runs=None, seed=None, workers=None, no_mi
         'spoolfaults_fired', 'spawnfaults_fired', 'crashes', 'clean_shutdowns', 'restarts',
         'crash_at_event', 'crash_at_write', 'crash_at_openat', 'crash_at_close', 'crash_at_renameat',
         'crash_at_unlinkat', 'connections_refused', 'wake_late', 'wake_exact', 'wake_stall', 'unseen_replies',
-        'spawns_while_held_up', 'spawns_held_up_a_second_or_more')}
+        'spawns_while_held_up', 'spawns_held_up_a_second_or_more', 'clock_steps_back', 'clock_steps_forward')}
     ev = {
         'property_id': prop, 'tier': tier, 'seed': base_seed, 'level': cfg['level'],
         'coverage': {
@@ -530,11 +533,11 @@ def run_check(prop, tier, budget=None, runs=None, seed=None, workers=None, no_mi
         ev['coverage']['fault_variants_fired'] = nvfired
         ev['coverage']['exhaustive_within_each_history'] = True
         ev['coverage']['exhaustive'] = False
-    os.makedirs(VERIF + '/evidence', exist_ok=True)
+    os.makedirs(EVIDENCE, exist_ok=True)
     if stage:
         # a further campaign of PROP: goes into PROP's evidence file
         ev['coverage']['technique'] = cfg.get('technique')
-        path = '%s/evidence/%s.json' % (VERIF, prop)
+        path = '%s/%s.json' % (EVIDENCE, prop)
         try:
             main_ev = json.load(open(path))
         except (OSError, ValueError):
@@ -546,7 +549,7 @@ def run_check(prop, tier, budget=None, runs=None, seed=None, workers=None, no_mi
         main_ev['violations'] = main_ev.get('violations', 0) + ev['violations']
         main_ev['wall_s'] = round(main_ev.get('wall_s', 0) + ev['wall_s'], 2)
         ev = main_ev
-    with open('%s/evidence/%s.json' % (VERIF, prop), 'w') as f:
+    with open('%s/%s.json' % (EVIDENCE, prop), 'w') as f:
         json.dump(ev, f, indent=1)
     print('%s%s %s: %d runs (%d distinct non-trivial), %.0f simulated s, %d violations, %.1f s wall' %
           (prop, '/' + stage if stage else '', tier, n, len(nontrivial), simsec, len(out_viol), wall))
